@@ -780,14 +780,16 @@ Examples:
     collapse = {}
     #XXX: any vectorized way to do this?
     for i,j in pairs: #XXX: sorted(sorted(pair) for pair in pairs): # ordering?
-        found = False
-        for k,v in collapse.items():
-            if i in (k,) or i in v:
-                v.add(j); found = True; break
-            if j in (k,) or j in v:
-                v.add(i); found = True; break
+        # find all groups that contain either member of the pair
+        found = [k for k,v in collapse.items() if i in (k,) or i in v or j in (k,) or j in v]
         if not found:
-            collapse[i] = set((j,))
+            collapse[i] = set((j,)) - set((i,))
+            continue
+        k = found[0]; v = collapse[k]
+        v.update((i,j))
+        for other in found[1:]: # the pair connects groups: merge them
+            v.add(other); v.update(collapse.pop(other))
+        v.discard(k)
     return collapse
 
 
